@@ -109,7 +109,7 @@ def helper_values(fn_name, nmax):
 def _steps_check(ctx, pid, kind, cfgs, search_n, table_n, helper_n, deps, dense_n=None):
     dense_n = dense_n or table_n
     from . import design
-    ref = design.refines(ctx, kind)
+    soundness = design.refines(ctx, kind)
     traces = record.record_many(cfgs)
     verdicts = fw.validate(ctx, traces)
     fw.bind_totals(traces, verdicts)
@@ -188,7 +188,7 @@ def _steps_check(ctx, pid, kind, cfgs, search_n, table_n, helper_n, deps, dense_
         "helper_values": len(helpers),
         "search_instances": len(insts), "search_box": f"all n <= {search_n}, all s <= n-1",
         "table_box": f"n <= {table_n}", "streams_skipped_not_executable": skipped,
-        "search_space_soundness": ref,
+        "search_space_soundness": soundness,
         "samples": [{"instance": insts[0]}, {"instance": insts[-1]},
                     {"claim": claims[0]}, {"claim": claims[len(claims) // 2]}] if insts else [claims[0]],
         "exhaustive": True,
